@@ -2,6 +2,7 @@ package lint
 
 import (
 	"fmt"
+	"go/ast"
 	"go/token"
 	"go/types"
 	"sort"
@@ -316,10 +317,48 @@ func (c *Ctx) returnsOnlyViaKey(fn *ssa.Function, ar *AliasResult, key string) b
 	return true
 }
 
+// syntacticMapRanges counts the range statements over map-typed operands in the source of fns.
+func (c *Ctx) syntacticMapRanges(fns []*ssa.Function) int {
+	n := 0
+	seen := map[ast.Node]bool{}
+	for _, fn := range fns {
+		syn := fn.Syntax()
+		if syn == nil || seen[syn] || fn.Pkg == nil {
+			continue
+		}
+		seen[syn] = true
+		var info *types.Info
+		for _, p := range c.Pkgs {
+			if p.Types == fn.Pkg.Pkg {
+				info = p.TypesInfo
+			}
+		}
+		if info == nil {
+			continue
+		}
+		ast.Inspect(syn, func(nd ast.Node) bool {
+			if _, isLit := nd.(*ast.FuncLit); isLit && nd != syn {
+				return false // a function literal is a function of its own
+			}
+			if rs, ok := nd.(*ast.RangeStmt); ok {
+				if t := info.TypeOf(rs.X); t != nil {
+					if _, isMap := t.Underlying().(*types.Map); isMap {
+						n++
+					}
+				}
+			}
+			return true
+		})
+	}
+	return n
+}
+
 // determinismRules: DESIGN 3.4 "Determinism".
 func (c *Ctx) determinismRules(r *Report, prefix string, scope []*ssa.Function) {
 	r.Rule(prefix+"determinism.no-random", "no function reachable from Encode/Marshal calls into crypto/rand, math/rand or time", 20)
-	r.Rule(prefix+"determinism.map-order", "every range over a map in encode scope is order-insensitive (collect-then-sort or unique-match idiom)", 1)
+	// floor: counted independently from the syntax of the functions in scope (1 on the tree the rule was written
+	// for: getAttrsKeys); a tree without any such range statement has nothing to check
+	r.Rule(prefix+"determinism.map-order", "every range over a map in encode scope is order-insensitive (collect-then-sort or unique-match idiom)", c.syntacticMapRanges(scope))
 	for _, fn := range scope {
 		var bad []string
 		for _, b := range fn.Blocks {
